@@ -203,6 +203,13 @@ def addfile_writes_when_opened(prog, ab, reg):
         r_ = ixa.resolve(t_["a"])
         if r_[0] == "rv" and r_[1]["k"] == "discr":
             dd_ = ixa.single_def(r_[1]["p"]["l"]) if not r_[1]["p"]["p"] else None
+            # through plain moves (the result of an inlined open helper is moved into the caller's local)
+            for _hop in range(6):
+                if dd_ and dd_[0] == "assign" and not dd_[3]["lhs"].get("p") and dd_[3].get("rv", {}).get("k") == "use":
+                    src_ = op_place(dd_[3]["rv"]["a"])
+                    dd_ = ixa.single_def(src_["l"]) if src_ and not src_["p"] else None
+                else:
+                    break
             if dd_ and dd_[0] == "call" and ixa.callee(dd_[3]).endswith("OpenOptions::open"):
                 arms_ = {int(v_): tg_ for v_, tg_ in t_["arms"]}
                 err_t = arms_.get(1, t_.get("else") if 1 not in arms_ else None)
@@ -582,14 +589,53 @@ def run(ctx):
     need(("Sqpk", "FileOperation", "AddFile"), "seek", 1, {"offset"}, "AddFile|seek")
     # AddFile payload comes from the block reader
     cs = calls_in(("Sqpk", "FileOperation", "AddFile"), "write_all")
-    ok = False
+    # the written buffer is the one the block reader's output is appended to (in place, or in a helper whose result is
+    # written): either the payload operand itself derives from read_data_block_patch, or an append/extend in the
+    # operation's region has the payload's buffer as receiver and the block reader's result as argument
+    GROW = ("Vec::<T, A>::append", "Vec::<T, A>::extend_from_slice", "std::iter::Extend<T>>::extend", "std::iter::Extend<&'a T>>::extend")
+    adefs = ab.defs()
+    VIEW = ("::deref", "::deref_mut", "::as_slice", "::as_mut_slice", "::as_ref", "::as_mut", "::borrow", "::borrow_mut")
+
+    def storage(op, depth=0):
+        """the local whose storage an operand views: through copies, borrows and slice/deref views"""
+        pl = op_place(op)
+        if pl is None or depth > 12:
+            return None
+        ds = adefs.get(pl["l"], [])
+        if len(ds) != 1:
+            return pl["l"]
+        kind, _b, _i, x = ds[0]
+        if kind == "assign" and not x["lhs"].get("p"):
+            rv = x.get("rv", {})
+            if rv.get("k") == "use":
+                return storage(rv["a"], depth + 1) if op_place(rv["a"]) else pl["l"]
+            if rv.get("k") in ("ref", "rawptr"):
+                base = rv["p"]
+                if "*" not in base.get("p", ()):
+                    return base["l"]
+                return storage({"c": {"l": base["l"], "p": []}}, depth + 1)
+            if rv.get("k") == "cast":
+                return storage(rv["a"], depth + 1)
+        if kind == "call" and (x.get("res") or "").endswith(VIEW) and x["args"]:
+            return storage(x["args"][0], depth + 1)
+        return pl["l"]
+
+    ok = appended = False
+    written = set()
     for _bi, t in cs:
         d = derive(ix, t["args"][1])
-        names = ab.local_names()
-        if any(names.get(l) == "data" for l in d.locals):
-            ok = True
-    appended = any((t.get("res") or "").endswith("Vec::<T, A>::append") for bi in regions.get(("Sqpk", "FileOperation", "AddFile"), ()) for t in [ab.blocks[bi]["t"]] if t["k"] == "call") and bool(calls_in(("Sqpk", "FileOperation", "AddFile"), "read_block"))
-    ctx.ob("PROV", "AddFile|payload", ok and appended, f"AddFile writes the buffer `data` ({ok}) that is filled from read_data_block_patch ({appended})", ab.file, ab.line)
+        written.add(storage(t["args"][1]))
+        if any("read_data_block_patch" in c for c in d.calls):
+            ok = appended = True
+    for bi in regions.get(("Sqpk", "FileOperation", "AddFile"), ()):
+        t = ab.blocks[bi]["t"]
+        if t["k"] == "call" and (t.get("res") or "").endswith(GROW) and len(t["args"]) == 2:
+            d1 = derive(ix, t["args"][1])
+            if any("read_data_block_patch" in c for c in d1.calls):
+                appended = True
+                if storage(t["args"][0]) in written - {None}:
+                    ok = True
+    ctx.ob("PROV", "AddFile|payload", ok and appended, f"AddFile writes the buffer ({ok}) that is filled from read_data_block_patch ({appended})", ab.file, ab.line)
     # loop bound: data.len() < fop.file_size
     fs_ok = False
     for bi in regions.get(("Sqpk", "FileOperation", "AddFile"), ()):
